@@ -776,7 +776,7 @@ pub fn op_strategy(o: GenOpts) -> impl Strategy<Value = Op> {
         chars.extend(['"', '"', '\\']);
     }
     let texts = vec![
-        "get-led ", "get-adc", "help", "help ", "set ", "--verbose", " -v", " -h", " --help", "exit", "net up ", "эхо ", "go-to ", "hello", "--", " 1", "ge", "ex", "he", "-n 5 ", "-- -x", "с", "ст", "сто", "стар", "a", "at", "-- -h", "hello ", "secret-cmd", "net iface ", "mtu 9 ",
+        "get-led ", "get-adc", "help", "help ", "set ", "--verbose", " -v", " -h", " --help", "exit", "net up ", "эхо ", "go-to ", "hello", "--", " 1", "ge", "ex", "he", "-n 5 ", "-- -x", "с", "ст", "сто", "стар", "a", "at", "-- -h", "hello ", "secret-cmd", "net iface ", "mtu 9 ", "HELP", "Help ", "--HELP", "-H", "hElp get-led",
     ];
     prop_oneof![
         40 => any::<u16>().prop_map(move |s| Op::Char(pick(&chars, s))),
